@@ -79,7 +79,7 @@ def hasharr_jobs(prop):
         q = ['--maxcap', '7', '--cases', '280', '--statecap', '200000']
         t = ['--maxcap', '12', '--cases', '3500', '--statecap', '3000000']
         a = t if tier == 'thorough' else q
-        js = [Job('h_hasharr', 'plain', extra_srcs=REFS_HASH, args=a)]
+        js = [Job('h_hasharr', 'plain', extra_srcs=REFS_HASH, args=a + (['--longchain', '1'] if (prop == 'C06' and tier == 'thorough') else []))]
         if prop == 'C07':
             qa = ['--maxcap', '5', '--cases', '140', '--statecap', '100000']
             ta = ['--maxcap', '8', '--cases', '1500', '--statecap', '600000']     # capacity 9 under ASan took ~1 h on two shards (the BFS of one capacity is one case)
@@ -94,7 +94,7 @@ CHECKS['C06'] = dict(
     rule='evaluation = one operation (put/put_by_obj/putstr, remove, remove_by_idx, clear, walk) judged against the bounded-map model: result, errno, '
          'the exact fit predicate (free>=1 and slots(new)<=free+slots(old)), (num,maxslots,usedslots), get of every universe key and an audited walk, after every operation. '
          'Phase A: breadth-first over every image reachable for capacities 2..N (N = 7 quick, 12 thorough) with 5 colliding keys (two per home, long keys sharing 16 bytes) x 3 value lengths (1/2/3 slots), '
-         'ops put/remove/remove_by_idx(every index), images de-duplicated by a normalised copy; phase B random histories, capacities 2..257, keys up to 65535 bytes, fill/churn-at-full/drain phases. '
+         'ops put/remove/remove_by_idx(every index), images de-duplicated by a normalised copy; phase B random histories, capacities 2..257, keys up to 65535 bytes, fill/churn-at-full/drain phases; thorough tier: one collision chain of 32768 keys in a table of 33000 slots. Regions carry 0..slot-1 bytes of slack, and a second handle attached to the same memory is checked against the model. '
          'distinct = distinct normalised images.',
     require=['walks_audited', 'put_new_refused', 'put_replace_refused', 'put_replace_ok', 'branch_empty_home', 'branch_same_home_chain',
              'branch_relocate_collision_block', 'branch_relocate_extension_block', 'remove_by_idx_promoting_collision_key', 'walks_with_removal',
